@@ -1,6 +1,7 @@
 import PycModel.Properties.Tables
 import PycModel.Properties.C09
 import PycModel.Proofs.StmtSkel
+import PycModel.Proofs.TransUnit
 /-!
 # C01 — every valid C99 / supported-C11 translation unit is accepted
 
@@ -35,5 +36,65 @@ theorem wellformed_statements_are_accepted (st : S) (hwf : WFS st) (s : PState) 
     ∃ v s', run (13 * st.ntoks) .statement s = .ok v s' := by
   obtain ⟨s', h, _⟩ := parse_stmt st hwf s rest hs hel (13 * st.ntoks) (by have := S.fuel_linear st; omega)
   exact ⟨_, s', h⟩
+
+open PycModel.DeclSkel PycModel.DeclParse PycModel.TransUnit in
+/-- **Whole translation units of the fragment are accepted, and parse to the `FileAST` the grammar
+prescribes.**  The fragment: any number of external declarations, each a file-scope declaration
+(specifiers: qualifiers, storage classes other than `typedef`, function specifiers, type keywords;
+init-declarators with pointers, qualifiers, array and `()` suffixes and assignment-expression
+initializers) or a function definition whose body is a block of such declarations and of the
+statements of `wellformed_statements_are_accepted` (which nest to any depth); every construct of
+any size.  `parseCore` is the model of `CParser.parse` on the token stream (`parse = finish ∘
+parseCore ∘ strip`); the fuel bound `extsFuel l` is linear in the size of the program.
+No hypothesis about the parser is left: token stream, scope stack, look-ahead scans and resets,
+`_build_declarations`, `fix_atomic_specifiers`, `fix_switch_cases` are all executed. -/
+theorem wellformed_translation_units_are_accepted (l : List Ext) (hw : ∀ e ∈ l, WFExt e) (F : Nat) (hF : extsFuel l ≤ F) :
+    (parseCore F ((extsFlat l).map (fun t => SEv.tok t.1 t.2) ++ [.eof])).1 =
+      .ast (mk .FileAST none [.list (extsVals 0 l)]) :=
+  parse_translation_unit l hw F hF
+
+open PycModel.DeclSkel PycModel.DeclParse PycModel.TransUnit in
+/-- non-vacuity, checked by the kernel: `int g = 1 ; int main ( ) { int x = g ; return x + 1 ; }` -/
+example :
+    (parseCore 200 ([("INT", "int"), ("ID", "g"), ("EQUALS", "="), ("INT_CONST_DEC", "1"), ("SEMI", ";"), ("INT", "int"),
+        ("ID", "main"), ("LPAREN", "("), ("RPAREN", ")"), ("LBRACE", "{"), ("INT", "int"), ("ID", "x"), ("EQUALS", "="),
+        ("ID", "g"), ("SEMI", ";"), ("RETURN", "return"), ("ID", "x"), ("PLUS", "+"), ("INT_CONST_DEC", "1"), ("SEMI", ";"),
+        ("RBRACE", "}")].map (fun t => SEv.tok t.1 t.2) ++ [.eof])).1 =
+    .ast (mk .FileAST none [.list [
+      mk .Decl (tc 1) [.str "g", .list [], .list [], .list [], .list [],
+        mk .TypeDecl (tc 1) [.str "g", .list [], .none, mk .IdentifierType (tc 0) [.list [.str "int"]]],
+        mk .Constant (tc 3) [.str "int", .str "1"], .none],
+      mk .FuncDef (tc 6) [
+        mk .Decl (tc 6) [.str "main", .list [], .list [], .list [], .list [],
+          mk .FuncDecl (tc 6) [.none,
+            mk .TypeDecl (tc 6) [.str "main", .list [], .none, mk .IdentifierType (tc 5) [.list [.str "int"]]]],
+          .none, .none],
+        .none,
+        mk .Compound (tc 9) [.list [
+          mk .Decl (tc 11) [.str "x", .list [], .list [], .list [], .list [],
+            mk .TypeDecl (tc 11) [.str "x", .list [], .none, mk .IdentifierType (tc 10) [.list [.str "int"]]],
+            mk .ID (tc 13) [.str "g"], .none],
+          mk .Return (tc 15) [mk .BinaryOp (tc 16) [.str "+", mk .ID (tc 16) [.str "x"],
+            mk .Constant (tc 18) [.str "int", .str "1"]]]]]]]]) := by
+  let prog : List Ext :=
+    [.decl { specs := [("INT", "int")], first := { d := .name "g", init := some (.const "INT_CONST_DEC" "1" "int") }, more := [] },
+     .fdef { specs := [("INT", "int")], d := .fn0 (.name "main"),
+             body := [.decl { specs := [("INT", "int")], first := { d := .name "x", init := some (.id "g") }, more := [] },
+                      .stmt (.ret (some (.bin "PLUS" "+" (.id "x") (.const "INT_CONST_DEC" "1" "int"))))] }]
+  have hint : SpecToks false [("INT", "int")] := by simp [SpecToks, typeSpecSimple]
+  have hval : SpecVals [("INT", "int")] := by
+    intro t ht; simp only [List.mem_singleton] at ht; subst ht; exact ⟨by decide, by decide⟩
+  have hw : ∀ e ∈ prog, WFExt e := by
+    intro e he
+    simp only [prog, List.mem_cons, List.not_mem_nil, or_false] at he
+    rcases he with rfl | rfl
+    · exact ⟨hint, hval, rfl, ⟨.name _, trivial, by intro e h; cases h; exact .const _ _ _ _ (by decide)⟩, by intro it h; cases h⟩
+    · refine ⟨hint, hval, rfl, .fn0 _ (.name _) rfl, trivial, ?_⟩
+      intro it hit
+      simp only [List.mem_cons, List.not_mem_nil, or_false] at hit
+      rcases hit with rfl | rfl
+      · exact ⟨hint, hval, rfl, ⟨.name _, trivial, by intro e h; cases h; exact .id _ _⟩, by intro it h; cases h⟩
+      · exact StmtSkel.WFS.retSome _ (.bin _ 8 _ _ _ _ (by decide) (by omega) (.id _ _) (.const _ _ _ _ (by decide)))
+  exact parse_translation_unit prog hw 200 (by decide)
 
 end PycModel.C01
